@@ -40,6 +40,10 @@ smaller norm above each pivot (zero rows last); `leadCol n H i` is the pivot col
 theorem isHnf_sound (m n : Nat) (H : Mat) (h : isHnf m n H = true) : IsHnf m n (ent H) (leadCol n H) :=
   isHnf_sound' m n H h
 
+/-- … and rejects nothing else: `isHnf` DECIDES the Hermite shape (with `leadCol` as the pivot-column function) -/
+theorem isHnf_iff (m n : Nat) (H : Mat) : isHnf m n H = true ↔ IsHnf m n (ent H) (leadCol n H) :=
+  ⟨isHnf_sound' m n H, isHnf_complete' m n H⟩
+
 example : isHnf 3 3 #[#[2, 1, 0], #[0, 3, -1], #[0, 0, 0]] = true := by decide
 example : isHnf 2 2 #[#[-1, 0], #[0, 1]] = false := by decide
 
@@ -50,6 +54,12 @@ theorem isLLLReduced_sound (m n : Nat) (B : Mat) (p q : Int) (h : isLLLReduced m
     IsLLLReduced m n (ent B) ((p : ℚ) / (q : ℚ)) := by
   unfold isLLLReduced at h
   exact ⟨_, _, reducedWith_sound m n B p q _ _ h⟩
+
+/-- the Gram–Schmidt data the reducedness statement refers to are uniquely determined by `B`
+(so `IsLLLReduced` is a statement about THE Gram–Schmidt orthogonalisation of the rows) -/
+theorem gs_unique (m n : Nat) (B : Nat → Nat → Int) (bs mu bs' mu' : Nat → Nat → ℚ)
+    (h : IsGS m n B bs mu) (h' : IsGS m n B bs' mu') :
+    ∀ i < m, (∀ c < n, bs i c = bs' i c) ∧ (∀ j < i, mu i j = mu' i j) := IsGS.unique h h'
 
 example : isLLLReduced 3 3 #[#[0, 1, -1], #[1, 0, -1], #[1, 1, 1]] 3 4 = true := by decide +kernel
 example : isLLLReduced 2 2 #[#[1, 0], #[1, 1]] 3 4 = false := by decide +kernel
